@@ -6,7 +6,7 @@ import hashlib, json, os, queue, random, re, subprocess, sys, threading, time
 import vlib, peer as peerlib
 
 H = lambda b: (bytes(b).hex() if len(b) else "-")
-CALL_TIMEOUT = 4.0
+CALL_TIMEOUT = 6.0
 
 
 # ---------------------------------------------------------------------------------------------- scenario building
@@ -166,7 +166,7 @@ class Driver:
 
     def start(self):
         self.p = subprocess.Popen([self.exe, peerlib.CERTDIR], stdin=subprocess.PIPE, stdout=subprocess.PIPE,
-                                  stderr=subprocess.PIPE, env=self.env, bufsize=0)
+                                  stderr=subprocess.PIPE, env=self.env)
         self.q = queue.Queue()
         t = threading.Thread(target=self._reader, args=(self.p, self.q), daemon=True)
         t.start()
@@ -177,8 +177,9 @@ class Driver:
             q.put(line.decode("latin-1").rstrip("\n"))
         q.put(None)
 
-    def run_case(self, line, ncalls):
+    def run_case(self, line, ncalls, timeout=None):
         """returns (call_lines, status): status in ok | blocked | crashed"""
+        timeout = timeout or CALL_TIMEOUT
         if self.p is None or self.p.poll() is not None:
             self.start()
         self.p.stdin.write((line + "\n").encode())
@@ -186,7 +187,7 @@ class Driver:
         calls, status, destroyed = [], "ok", None
         while True:
             try:
-                l = self.q.get(timeout=CALL_TIMEOUT)
+                l = self.q.get(timeout=timeout)
             except queue.Empty:
                 status = "blocked"
                 self.kill()
@@ -263,7 +264,7 @@ def observed_segs(scn, impl_calls):
         ev = impl_calls[ci]["ev"]
         sizes = [int(t[1:]) for t in ev if re.fullmatch(r"n\d+", t)]
         if not sizes and scn["cfg_type_at"].get(ci, scn["cfg"]["type"]) == "I":
-            sizes = [(0 if t == "sw:-" else (len(t) - 3) // 2) for t in ev if t.startswith("sw:")]
+            sizes = [sw_len_hash(t)[0] for t in ev if t.startswith("sw:") or t.startswith("sw#")]
         if not sizes:
             continue
         segs, pos = [], 0
@@ -273,7 +274,9 @@ def observed_segs(scn, impl_calls):
             segs.append(payload[pos:pos + n])
             pos += n
         if pos < len(payload):
-            segs.append(payload[pos:])
+            # what the client never read (cancelled / failed transfers) does not matter to the model
+            rest = payload[pos:]
+            segs.append(rest if len(rest) <= 65536 or not scn["exp"][ci].get("cancelled") else rest[:1])
         out[(si, ri)] = [s for s in segs if s]
     return out
 
@@ -312,6 +315,25 @@ def run_scenarios(scenarios, exe, drv, workdir, tag, nworkers=None, env=None):
         t.start()
     for t in ths:
         t.join()
+    # a call that did not come back is re-run once, alone and with a long timeout, before it counts as blocked
+    d = Driver(exe, env)
+    for i, res in enumerate(results):
+        if res["status"] == "ok":
+            continue
+        scn = scenarios[i]
+        pc = peerlib.PeerCase(scn["sessions"], scn["cfg"]["tlsver"])
+        endpoints = {k: pc.endpoint(k) for k in range(len(scn["sessions"]))}
+        t0 = time.time()
+        lines, status, destroyed = d.run_case(driver_line(scn, endpoints), len(scn["calls"]), timeout=15.0)
+        pc.finish(0.5)
+        calls = [parse_call_line(l) for l in lines]
+        if status == "blocked":
+            calls.append(dict(out="blocked", open=None, type=None, fds=None, ev=[]))
+        elif status == "crashed":
+            calls.append(dict(out="CRASH", open=None, type=None, fds=None, ev=[], stderr=d.last_stderr))
+        results[i] = dict(calls=calls, status=status, destroyed=destroyed, peer=pc.log, wall=time.time() - t0,
+                          rerun_of=res["status"])
+    d.kill()
     # the model, with the observed block sizes
     mlines = []
     for scn, res in zip(scenarios, results):
@@ -343,19 +365,50 @@ def proj_obs(ev):
     return [shorten(t) for t in ev if t.startswith("O")]
 
 
+HM, HB = (1 << 61) - 1, 1000003
+
+
+def poly_hash(b):
+    h = 0
+    for c in b:
+        h = (h * HB + c) % HM
+    return h
+
+
+def sw_len_hash(t):
+    """(length, hash) of a sink-write token in either form"""
+    if t.startswith("sw#"):
+        n, h = t[3:].split(":")
+        return int(n), int(h)
+    b = b"" if t == "sw:-" else bytes.fromhex(t[3:])
+    return len(b), poly_hash(b)
+
+
+def sink_bytes_known(ev):
+    """the bytes handed to the sink when every write was short enough to be logged verbatim, else None"""
+    out = b""
+    for t in ev:
+        if t.startswith("sw#"):
+            return None
+        if t.startswith("sw:"):
+            out += b"" if t == "sw:-" else bytes.fromhex(t[3:])
+    return out
+
+
 def proj_io(ev):
     """callback / sink tokens; consecutive sink writes merged (their split is the network's, not the client's)"""
     out = []
     for t in ev:
         if re.fullmatch(r"p[01]|b|e|sf|n\d+", t):
             out.append(t)
-        elif t.startswith("sw:"):
-            h = "" if t == "sw:-" else t[3:]
-            if out and out[-1].startswith("SW:"):
-                out[-1] = out[-1] + h
+        elif t.startswith("sw:") or t.startswith("sw#"):
+            n, h = sw_len_hash(t)
+            if out and isinstance(out[-1], tuple):
+                n0, h0 = out[-1]
+                out[-1] = (n0 + n, (h0 * pow(HB, n, HM) + h) % HM)
             else:
-                out.append("SW:" + h)
-    return [shorten(t) for t in out if t != "SW:"]
+                out.append((n, h))
+    return ["SW#%d:%d" % t if isinstance(t, tuple) else t for t in out if t != (0, 0)]
 
 
 def model_wire(ev):
